@@ -104,8 +104,14 @@ def cases(unit):
     tier = unit['tier']
     if unit.get('long'):
         # sequences far longer than any parameter, and parameters beyond the interpreter's small-int range
+        yield {'op': ['sort'], 'mode': 'plain', 'seq': 'big'}
+        for seq in spaces.sequences([0, 1, 2], 6):
+            yield {'op': ['distinct'], 'mode': 'tuples', 'seq': seq}
+        for o in OPS:
+            for seq in spaces.sequences([None, 0, 1], 3):
+                yield {'op': o, 'mode': 'reuse', 'seq': seq}
         for o in OPS + LARGE:
-            for n in (300, 599, 600, 601) if o in LARGE else (300,):
+            for n in (300, 599, 600, 601, 257) if o in LARGE else (300,):
                 seq = [None if i % 7 == 3 else (i * 5) % 4 for i in range(n)]
                 for mode in ('api', 'plain'):
                     if mode == 'plain' and o[0] not in PLAIN_OK:
@@ -144,8 +150,44 @@ def classify(o, seq, exp, got):
 
 
 def run_case(case, acc):
+    if case['seq'] == 'big':
+        # more items than any internal buffer size: 70 000 items, sorted output must be a stable ordered permutation
+        n = 70000
+        items = [((i * 7919) % 1000, i) for i in range(n)]
+        sink, ctx = harness.run_plain([['sort', 'first_of']], items)
+        acc.evals += 1
+        acc.events += n
+        if sink.error is not None or sink.items != sorted(items, key=lambda t: t[0]):
+            return [viol(['sort'], 'plain', 'large-input-not-a-stable-ordered-permutation', {'n': n, 'emitted': len(sink.items), 'error': repr(sink.error)})]
+        return []
     o, mode, seq = case['op'], case['mode'], list(case['seq'])
     out = []
+    if mode == 'tuples':
+        # values whose hashes collide although they differ: ('a', -1) / ('a', -2) ; equal but distinct objects
+        pool = [tuple(['a', -1]), tuple(['a', -2]), tuple(['b', -1])]
+        items = [tuple(pool[i]) for i in seq]
+        exp = listdef(o, items)
+        sink, ctx, store = harness.run_api([o], items)
+        acc.evals += 1
+        acc.events += len(items) + 1
+        acc.traces += 1
+        if sink.error is not None or sink.items != exp:
+            return [viol(o, 'mux', 'tuple-items-' + str(harness.diff_kind(exp, sink.items)), {'items': items, 'expected': exp, 'observed': sink.items})]
+        return []
+    if mode == 'reuse':
+        # the key lives three times on the same index: items, then an EMPTY lifetime, then items again
+        events = [('c', 0)] + [('n', 0, x) for x in seq] + [('d', 0), ('c', 0), ('d', 0), ('c', 0)] + [('n', 0, x) for x in reversed(seq)] + [('d', 0)]
+        sink = run_raw_mux(opspecs.build([o]), events)
+        acc.evals += 1
+        acc.events += len(events) + 1
+        acc.traces += 1
+        exp = [('c', (0,))] + [('n', (0,), y) for y in (listdef(o, seq) if seq or o[0] not in ('pad_start', 'pad_end', 'start_with') else [])] + [('d', (0,)), ('c', (0,)), ('d', (0,)), ('c', (0,))] + \
+              [('n', (0,), y) for y in (listdef(o, list(reversed(seq))) if seq or o[0] not in ('pad_start', 'pad_end', 'start_with') else [])] + [('d', (0,))]
+        if o[0] in ('pad_start', 'pad_end', 'start_with') and not seq:
+            return []
+        if sink.error is not None or sink.items != exp:
+            return [viol(o, 'mux', 'reused-key-' + str(harness.diff_kind(exp, sink.items)), {'op': o, 'events': events, 'expected': exp, 'observed': sink.items})]
+        return []
     if o[0] == 'sort':
         return run_sort(case, acc)
     spec = [o]
